@@ -1,1 +1,341 @@
-import SigModel.Spec.Hub
+/-
+C05 — Messages reach exactly the addressed sessions, once, with the true sender.
+
+`C05_routing`: in every reachable state of the hub model (every op sequence),
+for every message or control message a connected session sends — any of the four
+recipient types, any payload, any target id — what is written to connections
+is, as a multiset, exactly one copy for every addressed session that has a
+connection (`Spec/Hub.lean: addressed`, written from the statement), carrying
+the sender block built from the *server's* record of the sender.  Addressed
+sessions without a connection get the message queued instead (C06).
+-/
+import SigModel.Lemmas.HubRoute
+
+namespace SigModel.Hub
+
+/-- The sender block the server builds: recipient type, authenticated session id, authenticated user id. -/
+def senderOf (h : Hub) (s : Nat) (x : Sess) (rc : Rcpt) : Sender := { rtype := rc.rtype, sid := s, user := userOf h s x }
+
+/-- What an addressed session `t` gets written: on its own connection, or — a virtual session — on its
+internal client's connection with the recipient rewritten to the client's own id for it. -/
+def expectedOut (h : Hub) (s : Nat) (x : Sess) (ctl : Bool) (rc : Rcpt) (data : String) (t : Nat) : Option Out :=
+  match h.sess t with
+  | none => none
+  | some y =>
+    if y.kind = .virtual then
+      match h.sess y.parent with
+      | some p => (match p.conn with
+        | some c => some ⟨c, .message ctl (senderOf h s x rc) (some y.vkey) data, some p.backend⟩
+        | none => none)
+      | none => none
+    else
+      match y.conn with
+      | some c => some ⟨c, .message ctl (senderOf h s x rc) none data, some y.backend⟩
+      | none => none
+
+theorem mem_liveSids {h : Hub} (hi : Inv h) (t : Nat) : t ∈ liveSids h ↔ (h.sess t).isSome = true := by
+  unfold liveSids sids
+  simp only [List.mem_filter, List.mem_range]
+  constructor
+  · exact fun h => h.2
+  · intro hs
+    refine ⟨?_, hs⟩
+    apply Decidable.byContradiction
+    intro hlt
+    have := hi.fresh t (by omega)
+    rw [this] at hs; cases hs
+
+theorem liveSids_nodup (h : Hub) : (liveSids h).Nodup := by
+  unfold liveSids sids
+  exact List.Nodup.sublist List.filter_sublist List.nodup_range
+
+/-- Listener-set publication = addressed set, for a duplicate-free listener list `L` whose receiver
+filter coincides with membership in the addressed list `A`. -/
+theorem publish_eq_addressed {h : Hub} (m : Msg) (L A : List Nat) (g : Nat → Option Out)
+    (hL : L.Nodup) (hA : A.Nodup) (hsub : ∀ t, t ∈ A → t ∈ L)
+    (hin : ∀ t, t ∈ L → t ∈ A → deliveredTo h t m = g t)
+    (hout : ∀ t, t ∈ L → t ∉ A → deliveredTo h t m = none) :
+    (L.filterMap (fun t => deliveredTo h t m)).Perm (A.filterMap g) := by
+  have e1 : ∀ (L' : List Nat), (∀ t, t ∈ L' → t ∈ L) →
+      L'.filterMap (fun t => deliveredTo h t m) = (L'.filter (fun t => decide (t ∈ A))).filterMap g := by
+    intro L'
+    induction L' with
+    | nil => intro _; rfl
+    | cons t L' ih =>
+      intro hsubL
+      have ih' := ih (fun t' ht' => hsubL t' (List.mem_cons_of_mem _ ht'))
+      have htL := hsubL t List.mem_cons_self
+      by_cases hta : t ∈ A
+      · simp only [List.filterMap_cons, List.filter_cons, hta, decide_true, if_true, hin t htL hta, ih']
+      · simp only [List.filterMap_cons, List.filter_cons, hta, decide_false, hout t htL hta, ih']
+        simp
+  rw [e1 L (fun t ht => ht)]
+  apply List.Perm.filterMap
+  apply (List.perm_ext_iff_of_nodup (List.Nodup.sublist List.filter_sublist hL) hA).mpr
+  intro t
+  simp only [List.mem_filter, decide_eq_true_eq]
+  exact ⟨fun h => h.2, fun h => ⟨hsub t h, h⟩⟩
+
+/-- Publication of a message on a listener list whose receiver-side filter accepts exactly the
+addressed sessions. -/
+theorem route_listeners {h : Hub} (s : Nat) (x : Sess) (ctl : Bool) (rc : Rcpt) (data : String) (L A : List Nat)
+    (hL : L.Nodup) (hnv : ∀ t, t ∈ L → ∃ y, h.sess t = some y ∧ y.kind ≠ .virtual) (hA : A.Nodup)
+    (hsub : ∀ t, t ∈ A → t ∈ L)
+    (hpass : ∀ t y, t ∈ L → h.sess t = some y →
+      (passesAsyncFilter h t y (.message ctl (senderOf h s x rc) none data) = true ↔ t ∈ A)) :
+    ((L.foldl (fun a l => procClient a l (.msg (.message ctl (senderOf h s x rc) none data))) { h := h }).outs).Perm
+      (A.filterMap (expectedOut h s x ctl rc data)) := by
+  rw [foldl_procClient_message _ rfl L { h := h } hL (fun l hl y hy => by
+    obtain ⟨y', hy', hk'⟩ := hnv l hl; rw [hy] at hy'; cases hy'; exact hk')]
+  simp only [List.nil_append]
+  apply publish_eq_addressed _ L A _ hL hA hsub
+  · intro t htL htA
+    obtain ⟨y, hy, hkv⟩ := hnv t htL
+    unfold deliveredTo expectedOut
+    simp only [hy, (hpass t y htL hy).mpr htA, if_true, hkv, if_false]
+    cases y.conn <;> rfl
+  · intro t htL htA
+    obtain ⟨y, hy, hkv⟩ := hnv t htL
+    unfold deliveredTo
+    have : passesAsyncFilter h t y (.message ctl (senderOf h s x rc) none data) = false := by
+      cases hp : passesAsyncFilter h t y (.message ctl (senderOf h s x rc) none data)
+      · rfl
+      · exact absurd ((hpass t y htL hy).mp hp) htA
+    simp only [hy, this, Bool.false_eq_true, if_false]
+
+/-- **Routing refines the spec.** -/
+theorem C05_routing (ops : List Op) (s : Nat) (x : Sess) (ctl : Bool) (rc : Rcpt) (data : String)
+    (hx : (run {} ops).1.sess s = some x) (hk : x.kind ≠ .virtual)
+    (hallowed : ctl = false ∨ mayControl x = true) :
+    ((processMessage { h := (run {} ops).1 } s ctl rc data).outs).Perm
+      ((addressed (run {} ops).1 s rc).filterMap (expectedOut (run {} ops).1 s x ctl rc data)) := by
+  have hi := reachable_inv ops
+  generalize (run {} ops).1 = h at hi hx
+  obtain ⟨fm, fc, _⟩ : Generated.Hub.messageBackendChecked = true ∧ Generated.Hub.controlBackendChecked = true ∧ True := by decide
+  have hctl : (ctl && !mayControl x) = false := by
+    rcases hallowed with h1 | h1 <;> simp [h1]
+  unfold processMessage addressed
+  simp only [hx, hk, if_false, hctl, Bool.false_eq_true]
+  cases rc with
+  | session ot =>
+    cases ot with
+    | none => simp
+    | some t =>
+      simp only []
+      cases hy : h.sess t with
+      | none => simp
+      | some y =>
+        simp only []
+        have hguard : (if ctl then Generated.Hub.controlBackendChecked else Generated.Hub.messageBackendChecked) = true := by
+          cases ctl <;> simp [fm, fc]
+        simp only [hguard, Bool.true_and]
+        by_cases hb : y.backend ≠ x.backend
+        · simp [hb]
+        · have hb' : y.backend = x.backend := by simpa using hb
+          by_cases hts : t = s
+          · simp [hb', hts]
+          · simp only [hb', ne_eq, not_true_eq_false, decide_false, Bool.false_eq_true, if_false, hts, Bool.or_self,
+              List.filterMap_cons, List.filterMap_nil]
+            unfold expectedOut
+            simp only [hy]
+            by_cases hv : y.kind = .virtual
+            · simp only [hv, if_true]
+              obtain ⟨_, _, _, hpar⟩ := hi.virt t y hy hv
+              rcases hpar with hpar | ⟨p, hp, hpk, hpb, _⟩
+              · cases hpar
+              · have hpk' : p.kind ≠ .virtual := by rw [hpk]; decide
+                obtain ⟨o1, _, _⟩ := sendTo_message { h := h } y.parent (.message ctl (senderOf h s x (.session (some t))) (some y.vkey) data) rfl hp hpk'
+                rw [show (Sender.mk (Rcpt.session (some t)).rtype s (userOf h s x)) = senderOf h s x (.session (some t)) from rfl]
+                rw [o1, hp]
+                cases hpc : p.conn <;> simp [hpc]
+            · simp only [hv, if_false]
+              obtain ⟨o1, _, _⟩ := sendTo_message { h := h } t (.message ctl (senderOf h s x (.session (some t))) none data) rfl hy hv
+              rw [show (Sender.mk (Rcpt.session (some t)).rtype s (userOf h s x)) = senderOf h s x (.session (some t)) from rfl]
+              rw [o1]
+              cases y.conn <;> simp
+  | user u =>
+    simp only []
+    by_cases hu : u = ""
+    · simp [hu]
+    · by_cases hself : u = userOf h s x
+      · simp [hu, hself]
+      · simp only [hu, hself, if_false, Bool.or_self, Bool.false_eq_true, decide_false]
+        unfold pubUser
+        rw [show (Sender.mk (Rcpt.user u).rtype s (userOf h s x)) = senderOf h s x (.user u) from rfl]
+        apply route_listeners s x ctl (.user u) data _ _ (hi.userL_nodup _ _)
+        · intro t ht; obtain ⟨y, hy, _, _, _, hkv⟩ := (hi.userL_iff _ _ t).mp ht; exact ⟨y, hy, hkv⟩
+        · exact List.Nodup.sublist List.filter_sublist (liveSids_nodup h)
+        · intro t ht
+          simp only [List.mem_filter] at ht
+          obtain ⟨hlive, hcond⟩ := ht
+          cases hy : h.sess t with
+          | none => simp [hy] at hcond
+          | some y =>
+            simp only [hy, Bool.and_eq_true, decide_eq_true_eq] at hcond
+            exact (hi.userL_iff _ _ t).mpr ⟨y, hy, hcond.1.1.2, hcond.2, hu, by simpa using hcond.1.2⟩
+        · intro t y htL hy
+          obtain ⟨y', hy', hb, hyu, _, hkv⟩ := (hi.userL_iff _ _ t).mp htL
+          rw [hy] at hy'; cases hy'
+          simp only [passesAsyncFilter, senderOf, Rcpt.rtype, reduceCtorEq, if_false, List.mem_filter, mem_liveSids hi, hy,
+            Option.isSome_some, true_and, Bool.and_eq_true, decide_eq_true_eq]
+          constructor
+          · intro hp
+            have hne : ¬ s = t := by
+              intro e; simp [e] at hp
+            exact ⟨⟨⟨fun e => hne e.symm, hb⟩, by simpa using hkv⟩, hyu⟩
+          · rintro ⟨⟨⟨hne, _⟩, _⟩, _⟩
+            have : ¬ s = t := fun e => hne e.symm
+            simp [this]
+  | room =>
+    simp only []
+    cases hr : x.room with
+    | none => simp
+    | some r =>
+      simp only []
+      unfold pubRoom
+      rw [show (Sender.mk Rcpt.room.rtype s (userOf h s x)) = senderOf h s x .room from rfl]
+      apply route_listeners s x ctl .room data _ _ (hi.roomL_nodup _ _)
+      · intro t ht; obtain ⟨y, hy, _, _, hkv⟩ := (hi.roomL_iff _ _ t).mp ht; exact ⟨y, hy, hkv⟩
+      · exact List.Nodup.sublist List.filter_sublist (liveSids_nodup h)
+      · intro t ht
+        simp only [List.mem_filter] at ht
+        obtain ⟨hlive, hcond⟩ := ht
+        cases hy : h.sess t with
+        | none => simp [hy, inRoom] at hcond
+        | some y =>
+          simp only [hy, inRoom, Bool.and_eq_true, decide_eq_true_eq] at hcond
+          exact (hi.roomL_iff _ _ t).mpr ⟨y, hy, hcond.1.2.1, hcond.1.2.2, by simpa using hcond.2⟩
+      · intro t y htL hy
+        obtain ⟨y', hy', hb, hyr, hkv⟩ := (hi.roomL_iff _ _ t).mp htL
+        rw [hy] at hy'; cases hy'
+        simp only [passesAsyncFilter, senderOf, Rcpt.rtype, reduceCtorEq, if_false, List.mem_filter, mem_liveSids hi, hy,
+          Option.isSome_some, true_and, inRoom, Bool.and_eq_true, decide_eq_true_eq]
+        constructor
+        · intro hp
+          have hne : ¬ s = t := by
+            intro e; simp [e] at hp
+          exact ⟨⟨fun e => hne e.symm, hb, hyr⟩, by simpa using hkv⟩
+        · rintro ⟨⟨hne, _⟩, _⟩
+          have : ¬ s = t := fun e => hne e.symm
+          simp [this]
+  | call =>
+    simp only []
+    cases hr : x.room with
+    | none => simp
+    | some r =>
+      simp only []
+      unfold pubRoom
+      rw [show (Sender.mk Rcpt.call.rtype s (userOf h s x)) = senderOf h s x .call from rfl]
+      apply route_listeners s x ctl .call data _ _ (hi.roomL_nodup _ _)
+      · intro t ht; obtain ⟨y, hy, _, _, hkv⟩ := (hi.roomL_iff _ _ t).mp ht; exact ⟨y, hy, hkv⟩
+      · exact List.Nodup.sublist List.filter_sublist (liveSids_nodup h)
+      · intro t ht
+        simp only [List.mem_filter] at ht
+        obtain ⟨hlive, hcond⟩ := ht
+        cases hy : h.sess t with
+        | none => simp [hy, inRoom] at hcond
+        | some y =>
+          simp only [hy, inRoom, Bool.and_eq_true, decide_eq_true_eq] at hcond
+          exact (hi.roomL_iff _ _ t).mpr ⟨y, hy, hcond.1.1.2.1, hcond.1.1.2.2, by simpa using hcond.2⟩
+      · intro t y htL hy
+        obtain ⟨y', hy', hb, hyr, hkv⟩ := (hi.roomL_iff _ _ t).mp htL
+        rw [hy] at hy'; cases hy'
+        simp only [passesAsyncFilter, senderOf, Rcpt.rtype, if_true, hyr, hb, List.mem_filter, mem_liveSids hi, hy,
+          Option.isSome_some, true_and, inRoom, Bool.and_eq_true, decide_eq_true_eq]
+        have hkv' : (!decide (y.kind = Kind.virtual)) = true := by simpa using hkv
+        by_cases hne : s = t
+        · subst hne; simp
+        · have hne' : ¬ t = s := fun e => hne e.symm
+          simp [hne, hne', hkv']
+          exact fun _ => hkv
+
+end SigModel.Hub
+
+namespace SigModel.Hub
+
+/-- The addressed sessions are listed once each, never include the sender, and are all sessions of
+the sender's backend. -/
+theorem C05_addressed_once_not_sender (ops : List Op) (s : Nat) (rc : Rcpt) :
+    (addressed (run {} ops).1 s rc).Nodup ∧ s ∉ addressed (run {} ops).1 s rc ∧
+    ∀ t, t ∈ addressed (run {} ops).1 s rc →
+      ∃ x y, (run {} ops).1.sess s = some x ∧ (run {} ops).1.sess t = some y ∧ y.backend = x.backend := by
+  generalize (run {} ops).1 = h
+  unfold addressed
+  cases hx : h.sess s with
+  | none => simp
+  | some x =>
+    simp only []
+    have hf : ∀ (p : Nat → Bool), ((liveSids h).filter p).Nodup := fun p =>
+      List.Nodup.sublist List.filter_sublist (liveSids_nodup h)
+    cases rc with
+    | session ot =>
+      cases ot with
+      | none => simp
+      | some t =>
+        simp only []
+        cases hy : h.sess t with
+        | none => simp
+        | some y =>
+          simp only []
+          split
+          · simp
+          · rename_i hc
+            simp only [Bool.or_eq_true, decide_eq_true_eq, not_or, ne_eq, Decidable.not_not] at hc
+            refine ⟨by simp, by simp; exact fun e => hc.2 e.symm, ?_⟩
+            intro t' ht'; simp at ht'; subst ht'; exact ⟨x, y, rfl, hy, hc.1⟩
+    | user u =>
+      simp only []
+      split
+      · simp
+      · refine ⟨hf _, ?_, ?_⟩
+        · simp [List.mem_filter, hx]
+        · intro t ht
+          simp only [List.mem_filter] at ht
+          cases hy : h.sess t with
+          | none => simp [hy] at ht
+          | some y => simp only [hy, Bool.and_eq_true, decide_eq_true_eq] at ht; exact ⟨x, y, rfl, rfl, ht.2.1.1.2⟩
+    | room =>
+      simp only []
+      cases x.room with
+      | none => simp
+      | some r =>
+        refine ⟨hf _, by simp [List.mem_filter], ?_⟩
+        intro t ht
+        simp only [List.mem_filter, inRoom] at ht
+        cases hy : h.sess t with
+        | none => simp [hy] at ht
+        | some y => simp only [hy, Bool.and_eq_true, decide_eq_true_eq] at ht; exact ⟨x, y, rfl, rfl, ht.2.1.2.1⟩
+    | call =>
+      simp only []
+      cases x.room with
+      | none => simp
+      | some r =>
+        refine ⟨hf _, by simp [List.mem_filter], ?_⟩
+        intro t ht
+        simp only [List.mem_filter, inRoom] at ht
+        cases hy : h.sess t with
+        | none => simp [hy] at ht
+        | some y => simp only [hy, Bool.and_eq_true, decide_eq_true_eq] at ht; exact ⟨x, y, rfl, rfl, ht.2.1.1.2.1⟩
+
+/-- A control message from a session without the control permission (and that is not an internal
+client) is dropped without any effect. -/
+theorem C05_control_needs_permission (a : Acc) (s : Nat) (x : Sess) (rc : Rcpt) (data : String)
+    (hx : a.h.sess s = some x) (hp : mayControl x = false) : processMessage a s true rc data = a := by
+  unfold processMessage
+  simp only [hx, hp]
+  split <;> simp
+
+private def demo : List Op :=
+  [.connect 1, .connect 2, .connect 3, .hello 1 0 .client "alice" false false, .hello 2 0 .client "bob" false false,
+   .hello 3 0 .client "bob" false false, .join 1 "room" "n1" (.ok none ""), .join 2 "room" "n2" (.ok none ""),
+   .message 1 false (.user "bob") "hi", .message 1 false .room "all", .message 2 false (.session (some 1)) "you"]
+
+/-- Non-vacuity: user-addressed to both of bob's sessions, room-addressed to the other member only,
+session-addressed to exactly that session — each with the server's sender block. -/
+example : ((run {} demo).2.drop 8).map (fun outs => outs.map (fun o => (o.conn, o.msg))) =
+    [[(2, .message false ⟨.user, 1, "alice"⟩ none "hi"), (3, .message false ⟨.user, 1, "alice"⟩ none "hi")],
+     [(2, .message false ⟨.room, 1, "alice"⟩ none "all")],
+     [(1, .message false ⟨.session, 2, "bob"⟩ none "you")]] := by
+  decide +kernel
+
+end SigModel.Hub
